@@ -178,7 +178,21 @@ func (s *Sim) now() time.Duration { return time.Since(s.start) }
 
 // failedNow: a violation was recorded since the current base (known findings
 // recorded earlier in a crash-point enumeration do not stop later points).
-func (s *Sim) failedNow() bool { return len(s.res.Violations) > s.violBase }
+// A violation of ANOTHER property than the one being checked does not end the run (it is reported
+// as a note): the run goes on so that the checked property's own oracles get their chance - a broken
+// locking rule is a C03 violation first and only later, perhaps, a C01 one. A handful of foreign
+// violations is enough, though.
+func (s *Sim) failedNow() bool {
+	own, foreign := 0, 0
+	for _, v := range s.res.Violations[s.violBase:] {
+		if v.Property == s.opt.Property || s.opt.Property == "" || s.opt.Mode == "crash" {
+			own++
+		} else {
+			foreign++
+		}
+	}
+	return own > 0 || foreign >= 6
+}
 
 // wallNow reads the real clock (time.Now is the fake clock inside the bubble).
 // It is used only for the per-run watchdog, never for a decision that affects
